@@ -13,6 +13,7 @@
   free reference occurrences); `checkOne` then only has to look at the params.
 -/
 import SoyVerif.Lemmas.CheckWalk
+import SoyVerif.Model.Registry
 
 namespace SoyVerif.Props.C07
 open SoyVerif SoyVerif.Model SoyVerif.Model.Check SoyVerif.Spec SoyVerif.Lemmas.Check
@@ -51,6 +52,14 @@ theorem check_sound (reg : List Check.Template) : check reg = true → Valid reg
 theorem check_complete (reg : List Check.Template) : Valid reg → check reg = true :=
   (check_iff_valid reg).mpr
 
+/-- R1 on its own — the safety half the renderer relies on: in an accepted bundle every reference
+    occurrence `$k` is bound in ITS lexical environment (by `$ij`, a let/loop variable in scope there,
+    or a declared param) -/
+theorem check_sound_refs (reg : List Check.Template) (h : check reg = true) :
+    ∀ t ∈ reg, AllRefsBound t := by
+  intro t ht o ho
+  exact okBlock_occs t.body [] ((check_sound reg h) t ht).1 o ho
+
 /-- a bundle violating some rule is rejected -/
 theorem check_rejects (reg : List Check.Template) : ¬ Valid reg → check reg = false := by
   intro h
@@ -74,6 +83,16 @@ theorem resolve_spec {params : List Bytes} {env : Env} {k : Bytes} {t : Target} 
     occurrences of a command lie below the height of its environment -/
 theorem refs_below_env (reg : List Check.Template) (params : List Bytes) (env : Env) (c : Cmd) :
     ∀ t ∈ refsCmd reg params env c, t.below env.length = true := refsCmd_below c env
+
+/-- the remaining rule of the property ("not both soydoc and header params") is enforced one step
+    earlier, when the registry is built: `Registry.Add` fails on such a template -/
+theorem soydoc_and_header_params_rejected (fileName text ns : Bytes) (nsAe ae : Autoescape)
+    (pos bpos dpos hpos tpos : Nat) (name hname typ : Bytes) (opt priv : Bool) (dflt : Option Expr)
+    (sp : SoyDocParam) (sps : List SoyDocParam) (body : CmdList) (rest : List Cmd) (reg : Registry.Reg) :
+    Registry.addTemplates fileName text ns nsAe
+      (.template pos name (.mk bpos (.cons (.headerParam hpos opt hname tpos typ dflt) body)) ae priv :: rest)
+      (some (.soyDoc dpos (sp :: sps))) reg = none := by
+  simp [Registry.addTemplates, Registry.splitHeaderParams]
 
 /-! ### valid_examples: the specification is satisfiable, and every rule bites
 
@@ -178,6 +197,26 @@ example : check [tA [.call 0 [98] true none (.value 0 z (ref x) (.value 0 q (ref
 example : check [tA [.call 0 [98] false none (.value 0 z (ref x) .nil)], tB] = false := by decide +kernel
 /-- R6: a `{@param}` that is not at the head of the body -/
 example : check [tA [.headerParam 0 false q 0 [] none], tB] = false := by decide +kernel
+
+/-! Edge cases of the rules, as the real compiler decides them (checked against /repo):
+    `$ij` never denotes a variable or a param. -/
+
+/-- a param called `ij` cannot be used by `{$ij}`: rejected as unused (R2) -/
+example : check [{ name := [99], params := [⟨ij, false⟩], body := blk [pr (ref ij)] }] = false := by
+  decide +kernel
+/-- a LOOP variable may be called `ij` (R4 is about lets only); `{$ij}` in the body is still the injected data -/
+example : check [{ name := [99], params := [⟨x, false⟩], body := blk [.forc 0 ij (ref x) (blk [pr (ref ij)]) none] }]
+    = true := by decide +kernel
+example : refsCmd [] [x] [] (.forc 0 ij (ref x) (blk [pr (ref ij)]) none) = [Target.param x, Target.ij] := by
+  decide +kernel
+/-- inside `{msg}` every child is a placeholder node of its own, so a let there has an empty scope:
+    `{msg …}{let $v: 1/}{$v}{/msg}` is rejected (unused let), while a let BEFORE the msg is visible in it -/
+example : check [{ name := [99], params := [], body := blk [.msg 0 0 [] [] 0
+    (.ph 0 [] (.cmd (.letValue 0 v (.int 0 1))) (.ph 0 [] (.cmd (pr (ref v))) .nil))] }] = false := by
+  decide +kernel
+example : check [{ name := [99], params := [], body := blk [.letValue 0 v (.int 0 1), .msg 0 0 [] [] 0
+    (.ph 0 [] (.cmd (pr (ref v))) .nil)] }] = true := by
+  decide +kernel
 
 /-- a rejected bundle violates the specification (by `check_complete`) -/
 example : ¬ Valid [tA [.letValue 0 v (.int 0 1)], tB] :=
